@@ -21,10 +21,13 @@ VARIABLES mods,         \* configured modules
           written, polled, cbdone,     \* subsets of mods
           state,        \* "starting" | "ready" | "refused" | "stopping" | "down"
           stopped, joined, shut,       \* subsets of mods
-          inflight                     \* modules whose (long) poll is running right now
+          inflight,                    \* modules whose (long) poll is running right now
+          stopAt                       \* time the shutdown began (tenths of a second), 0 before
 cfgvars == <<mods, att, wrong, fail, polls, writes, host>>
-vars == <<mods, att, wrong, fail, polls, writes, host, phase, written, polled, cbdone, state, stopped, joined, shut, inflight>>
+vars == <<mods, att, wrong, fail, polls, writes, host, phase, written, polled, cbdone, state, stopped, joined, shut, inflight, stopAt>>
 
+StartTimeout == 300     \* a poll thread that has not finished its first round after 30 s is not waited for any longer
+Grace == 5              \* on shutdown poll threads are waited for 0.5 s in total
 FailKinds == {"none", "early", "init", "create", "createcfg", "nosuper_early", "nosuper_init"}
 Rank(p) == CASE p = "absent" -> 0 [] p = "created" -> 1 [] p = "early" -> 2 [] p = "inited" -> 3 [] p = "started" -> 4
 
@@ -44,72 +47,74 @@ CfgInit == /\ mods \in (SUBSET Names) \ {{}}
            /\ host \in [mods -> mods] /\ (\A m \in mods : host[m] = m \/ host[m] \in att[m])
 RunInit == /\ phase = [m \in mods |-> "absent"]
            /\ written = {} /\ polled = {} /\ cbdone = {} /\ state = "starting"
-           /\ stopped = {} /\ joined = {} /\ shut = {} /\ inflight = {}
+           /\ stopped = {} /\ joined = {} /\ shut = {} /\ inflight = {} /\ stopAt = 0
 Init == CfgInit /\ RunInit
 
 Step(m, from, to) == /\ state = "starting" /\ phase[m] = from /\ phase' = [phase EXCEPT ![m] = to]
 
-Create(m) == fail[m] \notin {"create", "createcfg"} /\ Step(m, "absent", "created") /\ UNCHANGED <<cfgvars, written, polled, cbdone, state, stopped, joined, shut, inflight>>
-EarlyInit(m) == Step(m, "created", "early") /\ UNCHANGED <<cfgvars, written, polled, cbdone, state, stopped, joined, shut, inflight>>
+Create(m) == fail[m] \notin {"create", "createcfg"} /\ Step(m, "absent", "created") /\ UNCHANGED <<cfgvars, written, polled, cbdone, state, stopped, joined, shut, inflight, stopAt>>
+EarlyInit(m) == Step(m, "created", "early") /\ UNCHANGED <<cfgvars, written, polled, cbdone, state, stopped, joined, shut, inflight, stopAt>>
 (* initModule returns only when it is done; a user may see an attachment only once that one is inited *)
 InitModule(m) == /\ Step(m, "early", "inited")
-                 /\ UNCHANGED <<cfgvars, written, polled, cbdone, state, stopped, joined, shut, inflight>>
+                 /\ UNCHANGED <<cfgvars, written, polled, cbdone, state, stopped, joined, shut, inflight, stopAt>>
 StartModule(m) == /\ Step(m, "inited", "started")
-                  /\ UNCHANGED <<cfgvars, written, polled, cbdone, state, stopped, joined, shut, inflight>>
+                  /\ UNCHANGED <<cfgvars, written, polled, cbdone, state, stopped, joined, shut, inflight, stopAt>>
 (* a user looks at its attachment t: allowed only if t is fully initialised *)
 AttachSeen(u, t) == /\ t \in mods /\ Rank(phase[t]) >= 3 /\ UNCHANGED vars
 
 Write(m) == /\ m \in writes /\ m \notin written /\ m \notin polled        \* exactly once, before the first poll
             /\ phase[host[m]] = "started" /\ Rank(phase[m]) >= 3 /\ state = "starting"      \* in the thread of its host
             /\ written' = written \cup {m}
-            /\ UNCHANGED <<cfgvars, phase, polled, cbdone, state, stopped, joined, shut, inflight>>
+            /\ UNCHANGED <<cfgvars, phase, polled, cbdone, state, stopped, joined, shut, inflight, stopAt>>
 FirstPoll(m) == /\ m \in polls /\ phase[host[m]] = "started" /\ Rank(phase[m]) >= 3 /\ (m \in writes => m \in written)
                 /\ polled' = polled \cup {m}
-                /\ UNCHANGED <<cfgvars, phase, written, cbdone, state, stopped, joined, shut, inflight>>
+                /\ UNCHANGED <<cfgvars, phase, written, cbdone, state, stopped, joined, shut, inflight, stopAt>>
 Owners == {host[m] : m \in polls \cup writes}                 \* the modules that run a poll thread
 StartedCb(m) == /\ m \in Owners /\ m \notin cbdone /\ phase[m] = "started"
                 /\ \A n \in writes : host[n] = m => n \in written   \* the first round starts with the configured writes
                 /\ cbdone' = cbdone \cup {m}
-                /\ UNCHANGED <<cfgvars, phase, written, polled, state, stopped, joined, shut, inflight>>
+                /\ UNCHANGED <<cfgvars, phase, written, polled, state, stopped, joined, shut, inflight, stopAt>>
 
 (* a long poll has ended: never after a module was shut down (every poll thread is stopped - and waited for - first) *)
 PollBegin(m) == /\ inflight' = inflight \cup {m}
-                /\ UNCHANGED <<cfgvars, phase, written, polled, cbdone, state, stopped, joined, shut>>
-PollEnd(m) == /\ shut = {} /\ inflight' = inflight \ {m}
-              /\ UNCHANGED <<cfgvars, phase, written, polled, cbdone, state, stopped, joined, shut>>
+                /\ UNCHANGED <<cfgvars, phase, written, polled, cbdone, state, stopped, joined, shut, stopAt>>
+PollEnd(m) == /\ inflight' = inflight \ {m}
+              /\ UNCHANGED <<cfgvars, phase, written, polled, cbdone, state, stopped, joined, shut, stopAt>>
 
 (* the node reports ready: healthy configuration, everything started, every poll thread through its first round *)
-Ready == /\ state = "starting" /\ Healthy
-         /\ \A m \in mods : phase[m] = "started"
-         /\ Owners \subseteq cbdone
-         /\ state' = "ready"
-         /\ UNCHANGED <<cfgvars, phase, written, polled, cbdone, stopped, joined, shut, inflight>>
+Ready(t) ==
+   /\ state = "starting" /\ Healthy
+   /\ \A m \in mods : phase[m] = "started"
+   /\ (Owners \subseteq cbdone \/ t >= StartTimeout)     \* every poll thread through its first round, or timed out
+   /\ state' = "ready"
+   /\ UNCHANGED <<cfgvars, phase, written, polled, cbdone, stopped, joined, shut, inflight, stopAt>>
 (* an unhealthy configuration is refused: no module was started, nothing written to hardware *)
 Refuse == /\ state = "starting" /\ ~Healthy
           /\ \A m \in mods : Rank(phase[m]) < 4
           /\ written = {} /\ polled = {}
           /\ state' = "refused"
-          /\ UNCHANGED <<cfgvars, phase, written, polled, cbdone, stopped, joined, shut, inflight>>
+          /\ UNCHANGED <<cfgvars, phase, written, polled, cbdone, stopped, joined, shut, inflight, stopAt>>
 
-BeginStop == /\ state = "ready" /\ state' = "stopping"
-             /\ UNCHANGED <<cfgvars, phase, written, polled, cbdone, stopped, joined, shut, inflight>>
+BeginStop(t) == /\ state = "ready" /\ state' = "stopping" /\ stopAt' = t
+                /\ UNCHANGED <<cfgvars, phase, written, polled, cbdone, stopped, joined, shut, inflight>>
 StopPoller(m) == /\ state = "stopping" /\ m \notin stopped /\ shut = {}
                  /\ stopped' = stopped \cup {m}
-                 /\ UNCHANGED <<cfgvars, phase, written, polled, cbdone, state, joined, shut, inflight>>
+                 /\ UNCHANGED <<cfgvars, phase, written, polled, cbdone, state, joined, shut, inflight, stopAt>>
 Join(m) == /\ state = "stopping" /\ stopped = mods /\ m \notin joined /\ shut = {}
            /\ joined' = joined \cup {m}
-           /\ UNCHANGED <<cfgvars, phase, written, polled, cbdone, state, stopped, shut, inflight>>
+           /\ UNCHANGED <<cfgvars, phase, written, polled, cbdone, state, stopped, shut, inflight, stopAt>>
 (* users before the modules they are attached to; every poll thread stopped first *)
-Shutdown(m) == /\ state = "stopping" /\ stopped = mods /\ m \notin shut
-               /\ \A u \in mods : (m \in att[u] /\ u # m) => u \in shut
-               /\ shut' = shut \cup {m}
-               /\ state' = (IF shut \cup {m} = mods THEN "down" ELSE state)
-               /\ inflight = {}                                  \* every poll thread was stopped AND waited for
-               /\ UNCHANGED <<cfgvars, phase, written, polled, cbdone, stopped, joined, inflight>>
+Shutdown(m, t) ==
+   /\ state = "stopping" /\ stopped = mods /\ m \notin shut
+   /\ \A u \in mods : (m \in att[u] /\ u # m) => u \in shut
+   /\ shut' = shut \cup {m}
+   /\ state' = (IF shut \cup {m} = mods THEN "down" ELSE state)
+   /\ (inflight = {} \/ t >= stopAt + Grace)         \* every poll thread was stopped AND waited for (for the grace period)
+   /\ UNCHANGED <<cfgvars, phase, written, polled, cbdone, stopped, joined, inflight, stopAt>>
 
 Next == \/ \E m \in mods : Create(m) \/ EarlyInit(m) \/ InitModule(m) \/ StartModule(m) \/ Write(m)
-                           \/ FirstPoll(m) \/ StartedCb(m) \/ StopPoller(m) \/ Join(m) \/ Shutdown(m)
-        \/ Ready \/ Refuse \/ BeginStop
+                           \/ FirstPoll(m) \/ StartedCb(m) \/ StopPoller(m) \/ Join(m) \/ Shutdown(m, 0)
+        \/ Ready(0) \/ Refuse \/ BeginStop(0)
 Spec == Init /\ [][Next]_vars
 
 (* --- the rule set is consistent: --- *)
